@@ -214,3 +214,42 @@ Theorem C11_nurikabe_model_defined : forall h w grid,
   <-> (0 < h * w <= length grid)%nat.
 Proof. exact nurikabe_model_defined. Qed.
 Print Assumptions C11_nurikabe_model_defined.
+
+(* ---- C11's statement in full for every Tier-1 module: composition of the module's <p>_exact theorem
+   (hypothesis [exact] below, in the form the theorems above have for a fixed problem) with property C02's
+   solve_exact.  For ANY solver meeting the two oracle hypotheses of C01/C02: Solver.solve on the posted
+   program reports "no solution" exactly when no rule-obeying answer exists; otherwise the answer-key variable
+   at position k of the answer is reported decided with value z exactly when every rule-obeying answer has z
+   there, and undecided exactly when two rule-obeying answers differ there.  [wf_state] (every posted constraint
+   is a tree the public constructors build, over declared variables) makes the evaluator parameter immaterial. *)
+From Cspuz Require Import Backend.Z3 Backend.Z3Oracle Backend.Z3SolveProofs Backend.SolveLoop Backend.SolveZ3Proofs
+     Puzzle.SolveCompose Puzzle.SolveComposeExample.
+Theorem C11_solve_reports : forall oracle, oracle_sound_on oracle -> oracle_complete_on oracle ->
+  forall gsem st ids (rules : list Z -> bool),
+  wf_state st -> wf_keys st ->
+  (forall i, In i ids -> nth_error (keys st) i = Some true) ->
+  (forall ans, (exists en, model_of gsem en st /\ reads st en ids = ans) <-> rules ans = true) ->
+  exists r, solve oracle st = Ok r /\
+    match r with
+    | Unsat => forall ans, rules ans = false
+    | Sat sol =>
+        (exists ans, rules ans = true) /\
+        forall k i, nth_error ids k = Some i ->
+          exists a, nth_error sol i = Some a /\
+            (forall z, (exists v, a = Some v /\ zval v = z) <->
+                       (forall ans, rules ans = true -> nth_error ans k = Some z)) /\
+            (a = None <-> exists a1 a2, rules a1 = true /\ rules a2 = true /\ nth_error a1 k <> nth_error a2 k)
+    | OutOfFuel => False
+    end.
+Proof. exact solve_puzzle_exact. Qed.
+Print Assumptions C11_solve_reports.
+
+(* the hypotheses hold together somewhere: the program of solve_slitherlink on a 2x1 board with clues [3; -1],
+   with C02's brute-force oracle *)
+Theorem C11_solve_reports_nonvacuous :
+  forall st, solve_slitherlink_model ex_pb = Ok st ->
+  wf_state st /\ wf_keys st /\ (forall i, In i ex_ids -> nth_error (keys st) i = Some true) /\
+  (forall ans, (exists en, model_of no_graph en st /\ reads st en ex_ids = ans) <-> rules_slitherlink ex_pb ans = true) /\
+  exists r, solve bf_oracle st = Ok r /\ r <> OutOfFuel.
+Proof. exact solve_puzzle_exact_nonvacuous. Qed.
+Print Assumptions C11_solve_reports_nonvacuous.
